@@ -279,6 +279,25 @@ theorem scan_path_reads_expected :
        ("rowMapper", ["outFields", "fileFields"])] := by
   decide
 
+/-! ### several scans: a copy reused until the next structural change -/
+
+/-- A `cached` copy violates `prefix_complete`: point 4 (same key and period as point 0: written
+    in place, nothing allocated) is processed BEFORE the second scan starts, yet the second
+    scan, handed the remembered copy of the first, shows it in no field; the table as of its start
+    has it in both.  A structural insert in between (point 104: re-allocation) forgets the copy
+    and the next scan is right again — and so is every scan under the deep copy. -/
+theorem cached_copy_misses_processed_point :
+    (crun (prov 2) {} [.ingest 0, .scanStart, .deliver 0 0, .ingest 4, .scanStart, .deliver 1 0]).2 =
+      [(0, 0, some [some [0], some [0]]), (1, 0, some [some [0], some [0]])] ∧
+    view (prov 2) (run (prov 2) .deep {} [.ingest 0, .scanStart, .deliver 0 0, .ingest 4]).1 0 =
+      some [some [0, 4], some [0, 4]] ∧
+    Ev.ingest 4 ∈ [Ev.ingest 0, Ev.scanStart, Ev.deliver 0 0, Ev.ingest 4] ∧
+    (crun (prov 2) {} [.ingest 0, .scanStart, .ingest 4, .ingest 104, .scanStart, .deliver 1 0]).2 =
+      [(1, 0, some [some [0, 4, 104], some [0, 4, 104]])] ∧
+    deliveries .deep [.ingest 0, .scanStart, .deliver 0 0, .ingest 4, .scanStart, .deliver 1 0] =
+      [(0, 0, some [some [0], some [0]]), (1, 0, some [some [0, 4], some [0, 4]])] :=
+  ⟨by decide +kernel, by decide +kernel, by decide, by decide +kernel, by decide +kernel⟩
+
 /-! ### the code as found (`shared`) and the half repair (`arrays`) violate the property -/
 
 /-- D9, in place: the row of an existing key delivered after an in-scan insert into the same
